@@ -1,4 +1,6 @@
 import Arp.Model.Proto
+import Arp.Model.Trans
+import Arp.Model.Str
 /-!
 # `arpdrv` — line protocol driver
 
@@ -8,6 +10,59 @@ The model result is what the implementation must print for the same line
 (correspondence); the spec result is the property's oracle.
 -/
 open Arp Arp.Proto
+
+def hexBytes (h : String) : Option (List Nat) :=
+  if h == "-" then some [] else
+  let rec go : List Char → Option (List Nat)
+    | [] => some []
+    | [_] => none
+    | a :: b :: r => match hexDigit a, hexDigit b, go r with
+      | some x, some y, some t => some ((x * 16 + y) :: t)
+      | _, _, _ => none
+  go h.toList
+
+/-- `hex/len` -> (value, limb count); plain `hex` means the minimal limb count (at least 1) -/
+def parseBigTok (t : String) : Option (Nat × Nat) :=
+  match t.splitOn "/" with
+  | [h] => (parseHex h).map (fun v => (v, max 1 ((Nat.log2 v) / 64 + 1)))
+  | [h, l] => (match parseHex h, l.toNat? with
+      | some v, some n => some (v, max n (max 1 ((Nat.log2 v) / 64 + 1)))
+      | _, _ => none)
+  | _ => none
+
+def binDigits (n : Nat) : String := if n = 0 then "0" else String.ofList (Nat.toDigits 2 n)
+
+/-- Nat-level specification of the BigInt operations (C09) -/
+def bigSpec (op : String) (args : List String) : Option String :=
+  match op, args with
+  | "add", [a, b] => do let (x, _) ← parseBigTok a; let (y, _) ← parseBigTok b; pure (toHex (x + y))
+  | "sub", [a, b] => do
+      let (x, lx) ← parseBigTok a; let (y, ly) ← parseBigTok b
+      if y ≤ x then pure (toHex (x - y) ++ " 0") else pure (toHex (x + 2 ^ (64 * max lx ly) - y) ++ " 1")
+  | "mul", [a, b] => do let (x, _) ← parseBigTok a; let (y, _) ← parseBigTok b; pure (toHex (x * y))
+  | "div", [a, b] => do
+      let (x, _) ← parseBigTok a; let (y, _) ← parseBigTok b
+      if y = 0 then none else pure (toHex (x / y) ++ " " ++ toHex (x % y))
+  | "shl", [a, n] => do let (x, _) ← parseBigTok a; let k ← n.toNat?; pure (toHex (x <<< k))
+  | "shr", [a, n] => do let (x, _) ← parseBigTok a; let k ← n.toNat?; pure (toHex (x >>> k))
+  | "mask", [a, n] => do let (x, _) ← parseBigTok a; let k ← n.toNat?; pure (toHex (x % 2 ^ k))
+  | "powi", [a, n] => do let (x, _) ← parseBigTok a; let k ← n.toNat?; pure (toHex (x ^ k))
+  | "msb", [a] => do let (x, _) ← parseBigTok a; pure (toString (msb x))
+  | "tz", [a] => do
+      let (x, _) ← parseBigTok a
+      if x = 0 then none else
+      let rec go (fuel v c : Nat) : Nat := match fuel with
+        | 0 => c
+        | f + 1 => if v % 2 = 1 then c else go f (v / 2) (c + 1)
+      pure (toString (go (Nat.log2 x + 2) x 0))
+  | "cmp", [a, b] => do let (x, _) ← parseBigTok a; let (y, _) ← parseBigTok b
+                        pure (showOrd (some (compare x y)) ++ " " ++ b01 (x == y) ++ " " ++ b01 (x < y))
+  | "dec", [a] => do let (x, _) ← parseBigTok a; pure (toString x)
+  | "bin", [a] => do let (x, _) ← parseBigTok a; pure (binDigits x)
+  | "flags", [a] => do let (x, _) ← parseBigTok a; pure (b01 (x == 0) ++ " " ++ b01 (x % 2 == 0) ++ " " ++ b01 (x % 2 == 1))
+  | "allones", [n] => do let k ← n.toNat?; pure (toHex (2 ^ k - 1))
+  | "onehot", [n] => do let k ← n.toNat?; pure (toHex (2 ^ k))
+  | _, _ => none
 
 def bad : String := "bad-op\t-\t-"
 
@@ -90,6 +145,10 @@ def runProg (inss : List String) : String :=
 def handle (toks : List String) : String :=
   match toks with
   | "prog" :: inss => runProg inss
+  | "big" :: op :: args =>
+    (match bigSpec op args with
+     | some r => out r r op
+     | none => bad)
   | ["operu", op, s, a, n] =>
     (match parseSem s, n.toNat? with
      | some F, some n =>
@@ -176,6 +235,64 @@ def handle (toks : List String) : String :=
     (match parseSem s, d.toInt? with
      | some F, some n => let sp := Spec.fromInt F n
                          out (showFlt (fromI64 F n)) (showRes F sp) (tagOf F (some (n : Rat)) sp)
+     | _, _ => bad)
+  | ["disp", s, a] =>
+    (match parseSem s with
+     | some F =>
+       (match parseFlt F a with
+        | some x => out (String.ofList (x.display.map Char.ofNat)) "-" (if x.isNormal then (if x.exp < (F.p : Int) - 1 then "frac" else "int") else "c")
+        | none => bad)
+     | none => bad)
+  | ["parse", s, h] =>
+    (match parseSem s, hexBytes h with
+     | some F, some bs =>
+       (match tryFromStr bs F with
+        | .ok x => out ("ok " ++ showFlt x) "-" (if x.isNormal then "n" else "c")
+        | .error _ => out "err" "-" "err")
+     | _, _ => bad)
+  | ["const", name, s] =>
+    (match parseSem s with
+     | some F =>
+       (match name with
+        | "pi" => (match piFuel 100000 F with | some r => out (showFlt r) "-" "-" | none => out "FUEL" "-" "-")
+        | "e" => out (showFlt (eConst F)) "-" "-"
+        | "ln2" => out (showFlt (ln2Const F)) "-" "-"
+        | _ => bad)
+     | none => bad)
+  | ["fn", name, s, a] =>
+    (match parseSem s with
+     | some F =>
+       (match parseFlt F a with
+        | some x =>
+          let r : Option (Option Flt) := match name with
+            | "exp" => some (x.expFuel 1000000) | "log" => some (x.logFuel 100000)
+            | "sigmoid" => some (x.sigmoidFuel 1000000)
+            | "sin" => some (x.sinFuel 100000) | "cos" => some (x.cosFuel 100000) | "tan" => some (x.tanFuel 100000)
+            | "sqr" => some (some x.sqr)
+            | _ => none
+          (match r with
+           | some (some v) => out (showFlt v) "-" (if x.isNormal then "n" else "c")
+           | some none => out "FUEL" "-" "-"
+           | none => bad)
+        | none => bad)
+     | none => bad)
+  | ["pow", s, a, b] =>
+    (match parseSem s with
+     | some F =>
+       (match parseFlt F a, parseFlt F b with
+        | some x, some y =>
+          (match x.powFuel 1000000 y with
+           | some v => out (showFlt v) "-" (if x.isNormal && y.isNormal then "n" else "c")
+           | none => out "FUEL" "-" "-")
+        | _, _ => bad)
+     | none => bad)
+  | ["frac", s, n, a] =>
+    (match parseSem s, n.toNat? with
+     | some F, some n =>
+       (match parseFlt F a with
+        | some x => let r := x.asFraction n
+                    out s!"{toHex r.1}/{toHex r.2}" "-" (if x.isNormal then "n" else "c")
+        | none => bad)
      | _, _ => bad)
   | [op, s, a] =>
     (match parseSem s with
